@@ -647,6 +647,8 @@ fn run_mem<BS: BitmapSlice>(mk: impl Fn(u32) -> Cont<BS>, tracked: bool) -> RunI
         let mut log: Vec<String> = Vec::new();
         let mut ok_ops = 0;
         let mut rejected = 0;
+        // pages owed a dirty mark: written since the last reset that covered them (tracked containers)
+        let mut owed: Vec<BTreeSet<usize>> = vec![BTreeSet::new(); conts.len()];
         for step in 0..nops {
             if !cx().violations.is_empty() {
                 break;
@@ -655,7 +657,8 @@ fn run_mem<BS: BitmapSlice>(mk: impl Fn(u32) -> Cont<BS>, tracked: bool) -> RunI
             cx().actor = actor;
             // bitmap actor between operations
             if tracked && cx().a(5) == 0 {
-                let t = conts[cx().a(conts.len() as u32) as usize].track.as_ref().unwrap();
+                let bi = cx().a(conts.len() as u32) as usize;
+                let t = conts[bi].track.as_ref().unwrap();
                 let what = cx().a(3);
                 let (a, l) = (cx().a(t.bitmap.byte_size() as u32 + 1) as usize, 1 + cx().a(300) as usize);
                 in_mode(Mode::Setup, || match what {
@@ -663,6 +666,19 @@ fn run_mem<BS: BitmapSlice>(mk: impl Fn(u32) -> Cont<BS>, tracked: bool) -> RunI
                     1 => t.bitmap.reset_addr_range(a, l),
                     _ => drop(t.bitmap.get_and_reset()),
                 });
+                // history form of C05: a page written since the last reset that covered it is still dirty
+                if what == 1 {
+                    for p in a / t.ps..=(a + l - 1) / t.ps {
+                        owed[bi].remove(&p);
+                    }
+                } else {
+                    owed[bi].clear();
+                }
+                let now_pages = t.pages();
+                if let Some(p) = owed[bi].iter().find(|p| !now_pages.contains(p)) {
+                    cx().violate("C05", "C05/reset-cleared-too-much", format!("a reset cleared a page outside its range ({})", t.flavour), format!("step {}: {} on the bitmap of container {} (page size {}): page {} was written after the last reset that covered it and is not covered by this one, but it is clean now", step, [format!("reset()"), format!("reset_addr_range({}, {})", a, l), format!("get_and_reset()")][what as usize], bi, t.ps, p));
+                    break;
+                }
             }
             let ci = cx().a(conts.len() as u32) as usize;
             let spec = gen_view(conts[ci].size);
@@ -719,6 +735,9 @@ fn run_mem<BS: BitmapSlice>(mk: impl Fn(u32) -> Cont<BS>, tracked: bool) -> RunI
                 let after = t.pages();
                 let now = raw_read(c.ptr, c.size);
                 for i in 0..c.size {
+                    if now[i] != before_bytes[k][i] {
+                        owed[k].insert((t.base_off + i) / t.ps);
+                    }
                     if now[i] != before_bytes[k][i] && !after.contains(&((t.base_off + i) / t.ps)) {
                         cx().violate("C05", "C05/unmarked-write", format!("{} through {} left a changed byte clean", kname, t.flavour), format!("step {} {}: byte {} of container {} changed but page {} (page size {}, slice base offset {}) is clean", step, line, i, k, (t.base_off + i) / t.ps, t.ps, t.base_off));
                         break;
